@@ -89,8 +89,9 @@ def main():
     if not ns.no_store:
         dst = os.path.join(VERIF, "seeded", ns.name)
         os.makedirs(dst, exist_ok=True)
-        shutil.copy(os.path.join(src, "patch.diff"), dst)
-        shutil.copy(os.path.join(src, "demo.py"), dst)
+        if os.path.abspath(src) != os.path.abspath(dst):
+            shutil.copy(os.path.join(src, "patch.diff"), dst)
+            shutil.copy(os.path.join(src, "demo.py"), dst)
         prev = {}
         if os.path.exists(os.path.join(dst, "meta.json")):
             prev = json.load(open(os.path.join(dst, "meta.json")))
